@@ -24,11 +24,21 @@ Checked after every operation:
   * bulk UPDATE through the session changes exactly the chosen shards'
     matching rows and keeps loaded objects in sync.
 
-Mutations caught (private copy, `VF_REPO=/tmp/wt-bulk ./check C53`):
-  (filled in from the actual runs)
+Mutations caught (private copy, `VF_REPO=/tmp/wt-bulk/c53 ./check C53`):
+  h1 ext/horizontal_shard.py iter_for_shard: `update_execution_options(identity_token=shard_id)` dropped
+     -> get-wrong-object, token-mismatch, query-union
+  h2 ext/horizontal_shard.py _identity_lookup: identity chooser's answer walked in reverse
+     -> get-wrong-object (after ['get7'] then get7, same pk on two shards)
+  h3 ext/horizontal_shard.py _choose_shard_and_assign: chosen shard no longer stored in state.identity_token
+     -> placement, placement-child (after ['addAC', 'mod1'] then get3)
+  h4 orm/strategies.py lazy loader: `"_lazy_loaded_from": state` dropped from the load options
+     -> lazy-load-shard (decoy child from the other shard shows up), placement-child
+  h5 orm/bulk_persistence.py _get_matched_objects_on_criteria: identity-token filter dropped
+     -> stale-object (after ['get7t'] then updk3 with the subset execute chooser)
 """
 from __future__ import annotations
 
+import gc
 import itertools
 import sqlite3
 
@@ -329,6 +339,10 @@ def apply_op(impl, m, op, check):
     cfg, sess = impl.cfg, impl.sess
     problems = []
     nontriv = False
+    # the identity map is weak-referencing: whether a no longer referenced object is
+    # still in it must not depend on when the cyclic collector happens to run.  Objects of the
+    # current replay are young: collecting generations 0-1 is enough and keeps the cost flat
+    gc.collect(1)
 
     def bad(kind, msg):
         problems.append((kind, msg))
@@ -387,9 +401,10 @@ def apply_op(impl, m, op, check):
         try:
             o = sess.get(Item, pk, identity_token=token) if token is not None else sess.get(Item, pk)
             err = None
-        except orm_exc.MultipleResultsFound as e:
-            o, err = None, e
+        except orm_exc.MultipleResultsFound:
+            o, err = None, True
         if err is not None:
+            gc.collect(1)  # drop the objects the failed load left behind (traceback cycles)
             if check and not allowed_exc:
                 bad("get-raised", "get(%r) raised MultipleResultsFound but the chosen shards hold %r" % (pk, cands))
             return None
@@ -544,7 +559,13 @@ def shards(tier, seed):
     return out
 
 
+_BUILDS = [0]
+
+
 def build(cfg, history):
+    _BUILDS[0] += 1
+    if _BUILDS[0] % 512 == 0:
+        gc.collect()  # sessions of earlier replays (old generation by now)
     impl = Impl(cfg)
     m = Model(cfg)
     for op in history:
@@ -552,7 +573,17 @@ def build(cfg, history):
     return impl, m
 
 
+def _own_gc():
+    """deterministic collection: automatic GC off, explicit collects at fixed points;
+    everything allocated so far is frozen so that those collects are cheap"""
+    gc.disable()
+    gc.collect()
+    gc.freeze()
+
+
 def run_shard(shard, tier, rec):
+    _own_gc()
+    _BUILDS[0] = 0
     (n, f, idc, exc), depth = shard
     cfg = Config(n, f, idc, exc)
     cname = "shards=%d chooser=%s identity=%s execute=%s" % (n, "".join(map(str, f)), idc, exc)
@@ -594,6 +625,8 @@ def run_shard(shard, tier, rec):
 
 
 def replay(case):
+    _own_gc()
+    _BUILDS[0] = 0
     cfg = Config(case["n"], case["f"], case["idc"], case["exc"])
     cname = "shards=%d chooser=%s identity=%s execute=%s" % (case["n"], "".join(map(str, case["f"])), case["idc"], case["exc"])
     impl, m = build(cfg, tuple(case["history"]))
